@@ -389,19 +389,20 @@ func registerSlices() {
 		return r1(VLL(collection.FindCombinationsInSliceByRange(c.S(0), c.I(1), c.I(2))))
 	}, func(a, res, aft []Val) []hit {
 		s, lo, hi := a[0].L, a[1].Z, a[2].Z
-		// all index subsets in lexicographic order of the index sequences (DFS pre-order), size within [lo,hi]
+		// every non-empty set of positions (bit mask) whose size lies within [lo,hi] gives one combination
 		want := [][]int64{}
 		if len(s) > 0 && lo > 0 && hi > 0 && lo <= hi {
-			var rec func(start int, cur []int64)
-			rec = func(start int, cur []int64) {
-				if int64(len(cur)) >= lo && int64(len(cur)) <= hi {
-					want = append(want, append([]int64{}, cur...))
+			for mask := 1; mask < 1<<uint(len(s)); mask++ {
+				c := []int64{}
+				for i := range s {
+					if mask&(1<<uint(i)) != 0 {
+						c = append(c, s[i])
+					}
 				}
-				for i := start; i < len(s); i++ {
-					rec(i+1, append(append([]int64{}, cur...), s[i]))
+				if int64(len(c)) >= lo && int64(len(c)) <= hi {
+					want = append(want, c)
 				}
 			}
-			rec(0, nil)
 		}
 		got := res[0].LL
 		if len(got) != len(want) {
